@@ -42,13 +42,14 @@ RULE = ('corpus; exhaustive 2x2 matrices with votes 0..2, 1..3 seats, both divis
         'Instances whose party or district apportionment is tied are outside the quantifier and only counted. '
         'non-trivial = at least one transfer or multiplier update happened (trace longer than one state) or the call was refused; '
         'distinct by case hash')
-PARTIAL = ['termination of tie-and-transfer for all inputs is not proved (C07_termination_full_statement): observed under a wall-clock '
-           'bound per instance (exploration); proved: partial correctness of the whole-loop model for all inputs and the transfer bound '
-           'flaw/2 (C07_transfer_progress); the number of consecutive multiplier updates is not bounded',
+PARTIAL = ['termination is proved for the whole-loop MODEL (C07_terminates: at most (flaw/2 + 1) * (districts + parties + 2) iterations); '
+           'for the code it rests on the correspondence stream plus the same bound checked on the iteration count of every explored run; '
+           'a wall-clock limit per instance stays as the last line (a time-out is a violation)',
            'whole-loop model = code only as far as the correspondence stream explored; a code change that picks another valid output '
            'where cells tie loses the tie without violating C07: its outputs are judged by the checker and, when all are certified, the '
            'verdict is a broken correspondence without a failing input (LOOP_TIE_STRICT)',
-           '"refuses only when no seat matrix exists" is decided per instance (verified cut / matrix certificates), not for all inputs',
+           '"refuses only when no seat matrix exists" is proved for the opening refusal (no votes: C07_no_votes_refusal_justified) and '
+           'decided per instance (verified cut / matrix certificates) for the refusal through the adjustment coefficient',
            'the row <-> HighestAverages model equality is stated (C07_row_is_highest_averages_full_statement) and proved in its '
            'declarative min-max form (C07_row_divisor_apportionment) only',
            'C07_augment_inv treats the transfer path as an oracle; the whole-loop theorems compute it (labeled + walk)']
@@ -475,6 +476,22 @@ def judge_loop(ctx, stream, runs, holds):
         ev = holds[k].get('ev')
         trace = getattr(ev, '_verif_trace', None) if ev is not None else None
         why = compare_loop(r, trace, mo)
+        # the termination clause, declaratively on the implementation: the number of iterations the hook saw is within the bound of
+        # C07_terminates, (flaw of the initial solution / 2 + 1) * (|districts| + |parties| + 2); and the model, run on LOOP_FUEL,
+        # must not answer out-of-fuel when that bound fits into LOOP_FUEL
+        seen, orders = holds[k].get('tgt'), holds[k].get('orders')
+        if trace and seen is not None and orders:
+            first = trace[0][0]
+            flaw0 = sum(abs(sum(first.get(x, {}).values()) - seen.get(x, 0)) for x in orders[0])
+            bound = (flaw0 // 2 + 1) * (len(c['votes']) + len({p for _, row in c['votes'] for p, _ in row}) + 2)
+            ctx.dist['termination: iterations within the proved bound'] += 1
+            if len(trace) > bound:
+                nd += 1
+                ctx.report(stream, dict(c, _class='termination-bound'), ok(len(trace)), ok(bound),
+                           'evaluate ran %d iterations, more than the bound (flaw/2 + 1) * (districts + parties + 2) = %d of the '
+                           'termination theorem C07_terminates' % (len(trace), bound), known_class)
+            if bound <= LOOP_FUEL and common.parse_sx(mo)[0] == 0 and common.parse_sx(mo)[1][0] == 99:
+                ctx.broken('model', 'the whole-loop model answers out-of-fuel within the proved bound %d (C07_terminates): %s' % (bound, line[:300]))
         if why is None:
             ctx.dist['loop: agrees (outcome, multipliers, every iteration state)'] += 1
             n_it = len(trace) if trace else 0
